@@ -142,6 +142,18 @@ def writer_sites():
     def kv_block_name(s):
         return Keyvalues(s, [Keyvalues('in', '1')]).serialise(indent_braces=True, start_indent='\t'), kvopts, [s, 'in', '1']
 
+    def kv_export_value(s):
+        import warnings
+        with warnings.catch_warnings():
+            warnings.simplefilter('ignore', DeprecationWarning)
+            return ''.join(Keyvalues('k', s).export()), kvopts, ['k', s]
+
+    def kv_export_block(s):
+        import warnings
+        with warnings.catch_warnings():
+            warnings.simplefilter('ignore', DeprecationWarning)
+            return ''.join(Keyvalues(s, [Keyvalues('in', s)]).export()), kvopts, [s, 'in', s]
+
     def ent_text(ent):
         buf = _io.StringIO()
         ent.export(buf)
@@ -297,11 +309,20 @@ def writer_sites():
                 out.append(attr.val_str)
         return out
 
-    readers = {'kv': rd_kv, 'vmf.key': rd_vmf_ent, 'vmf.value': rd_vmf_ent, 'vmf.comments': rd_vmf_ent, 'bsp': rd_bsp, 'dmx': rd_dmx}
+    def rd_vmf_fixup(text):
+        v = VMF.parse(Keyvalues.parse(text))
+        out = []
+        for e in v.entities:
+            for var, val in e.fixup.items():
+                out.extend(['replace01', '$' + var + ' ' + val])
+        return out
+
+    readers = {'vmf.fixup': rd_vmf_fixup, 'kv': rd_kv, 'vmf.key': rd_vmf_ent, 'vmf.value': rd_vmf_ent, 'vmf.comments': rd_vmf_ent, 'bsp': rd_bsp, 'dmx': rd_dmx}
     _REAL_READERS.update(readers)
 
     sites = {
         'kv.leaf_name': (True, kv_leaf_name), 'kv.leaf_value': (False, kv_leaf_value), 'kv.block_name': (True, kv_block_name),
+        'kv.export_value': (False, kv_export_value), 'kv.export_block': (True, kv_export_block),
         'vmf.key': (True, vmf_key), 'vmf.value': (False, vmf_value), 'vmf.comments': (False, vmf_comments), 'vmf.fixup': (False, vmf_fixup),
         'vmf.material': (False, vmf_material), 'vmf.cordon_name': (False, vmf_cordon), 'vmf.visgroup_name': (False, vmf_visgroup),
         'bsp.key': (True, bsp_key), 'bsp.value': (False, bsp_value),
@@ -317,17 +338,20 @@ def writer_sites():
 
 _SITES: dict = {}
 _REAL_READERS: dict = {}
-SITE_EXTRA = ['\x00', '\ufeff', '\u00df', '\x1b']      # only for the writer/reader call-site strings
+SITE_EXTRA = ['\x00', '\ufeff', '\u00df', '\x1b',      # only for the writer/reader call-site strings
+              '\x1c', '\x1d', '\x1e', '\x85', '\u2028', '\u2029']      # what str.splitlines() treats as line breaks besides CR / LF
 
 
 def real_reader_for(name: str):
     return _REAL_READERS.get(name) or _REAL_READERS.get(name.split('.')[0])
 
 
-def check_sites(acc: core.Acc, s: str) -> None:
+def check_sites(acc: core.Acc, s: str, only_prefix: tuple = ()) -> None:
     if not _SITES:
         _SITES.update(writer_sites())
     for name, (single_line, fn) in _SITES.items():
+        if only_prefix and not name.startswith(only_prefix):
+            continue
         if single_line and ('\n' in s or '\r' in s):
             continue          # names are single-line by the format (readers reject line breaks in keys)
         if name.startswith('output.') and ((',' in s and 'comma' in name) or '\x1b' in s or (';' in s and 'inst' in name)):
@@ -381,6 +405,20 @@ def shard(spec) -> core.Acc:
         for tail in itertools.product(SIGMA + SITE_EXTRA, repeat=rest):
             check_sites(acc, prefix + ''.join(tail))
         acc.sample({'s': prefix + SIGMA[1] * rest, 'sites': 'all writer call sites'}, 1)
+    elif kind == 'long':
+        # length classes around powers of two up to 16 KiB, each escapable character at the start / middle / end of a filler run
+        for n in spec[1]:
+            for c in SIGMA + ['\x00']:
+                for pos in (0, n // 2, n - 1):
+                    for filler in ('x', ' '):
+                        body = [filler] * n
+                        body[pos] = c
+                        s_long = ''.join(body)
+                        for m in (False, True):
+                            check_one(acc, s_long, m, False)
+                        if n in (4096, 8191):
+                            check_sites(acc, s_long, only_prefix=('kv.', 'vmf.value', 'dmx.attr_value'))
+        acc.sample({'long_lengths': list(spec[1])}, 1)
     elif kind == 'uni':
         _, lo, hi, contexts = spec
         for cp in range(lo, hi):
@@ -411,13 +449,15 @@ def run(ctx: core.Ctx) -> None:
         else:
             for c in (itertools.product(SIGMA + SITE_EXTRA, repeat=1) if n == 2 else itertools.product(SIGMA + SITE_EXTRA, repeat=2)):
                 shards.append(('sites', ''.join(c), n))
+    for lens in ([255, 256, 257], [511, 512, 1000, 1001], [1023, 1024, 2047, 2048], [4095, 4096], [4097, 8191], [8192, 16384]):
+        shards.append(('long', lens))
     step = 0x1000
     for lo in range(0, 0x110000, step):
         shards.append(('uni', lo, lo + step, (lo < 0x10000) or not ctx.quick))
     k = ctx.seed % len(shards)
     core.par_map(shard, shards[k:] + shards[:k], ctx.acc)
     ctx.rule = (f'every string of length <= {L} over the {len(SIGMA)}-character escape alphabet x multiline in (False, True); '
-                f'every Unicode scalar value alone ({"and in 4 contexts for the BMP" if ctx.quick else "and in 4 contexts"}); '
+                f'strings of 255..16384 characters with each alphabet character at the start / middle / end; every Unicode scalar value alone ({"and in 4 contexts for the BMP" if ctx.quick else "and in 4 contexts"}); '
                 f'strings of length <= {E} additionally embedded first/middle/last in a line under both reader option sets; strings of length '
                 f'<= {SL} written by the REAL writers at every call site of escape_text (Keyvalues names/values/block names, VMF keys, values, '
                 f'comments, fixups, materials, cordon and visgroup names, every Output field with both separators incl. instance names, '
